@@ -9,6 +9,7 @@ let () =
   | _ :: "cycles" :: _ -> L_cycles.run ()
   | _ :: "resolve" :: _ -> L_resolve.run ()
   | _ :: "lspdoc" :: _ -> L_lspdoc.run ()
+  | _ :: "peg" :: _ -> L_peg.run ()
   | _ ->
       prerr_endline "usage: oalmodel <layer>";
       exit 2
